@@ -697,6 +697,13 @@ func (b *TB) StrLit(s string) *Term {
 	b.strLits[s] = t
 	b.strLitList = append(b.strLitList, t)
 	b.axioms = append(b.axioms, b.Eq(b.StrLen(t), b.Int(int64(len(s)))))
+	// rune structure of short literals
+	if rs := []rune(s); len(rs) <= 40 {
+		b.axioms = append(b.axioms, b.Eq(b.Func("str.runecount", []string{"Str"}, "Int", t), b.Int(int64(len(rs)))))
+		for i, r := range rs {
+			b.axioms = append(b.axioms, b.Eq(b.Func("str.runeat", []string{"Str", "Int"}, "Int", t, b.Int(int64(i))), b.Int(int64(r))))
+		}
+	}
 	return t
 }
 
